@@ -244,6 +244,40 @@ def fp2Units (a : List Nat) : List (List Nat) := chunks 2 (a.length / 2) a
 
 def samePck12 (a b : List Nat) : Bool := pck12.all fun i => (fp2Units a).getD i [] == (fp2Units b).getD i []
 
+/-- Karabina's decompression written in the specification's own arithmetic (Lemmas/Fpx.lean: `cyc_g1`, `cyc_g1_exc`, `cyc_g0`
+    show that a non-zero cyclotomic element with g2 ≠ 0 or g3 ≠ 0 is determined by g2..g5 through these formulas):
+    g1 = (ξ g5² + 3 g4² − 2 g3)/(4 g2)  or, when g2 = 0,  2 g4 g5 / g3;   g0 = ξ (2 g1² + g2 g5 − 3 g3 g4) + 1.
+    `none` when g2 = g3 = 0. -/
+def specBack12 (e : Env) (a : List Nat) : Option (List Nat) := do
+  let d2 ← e.tower 2
+  let u := fp2Units a
+  let g4 := u.getD 1 []; let g3 := u.getD 2 []; let g2 := u.getD 3 []; let g5 := u.getD 5 []
+  let xi := e.xi
+  let k := fun (n : Nat) (x : List Nat) => d2.mul (d2.ofNat n) x
+  let g1 ← (if !d2.isZero g2 then
+      (d2.inv? (k 4 g2)).map fun i => d2.mul (d2.sub (d2.add (d2.mul xi (d2.sqr g5)) (k 3 (d2.sqr g4))) (k 2 g3)) i
+    else if !d2.isZero g3 then (d2.inv? g3).map fun i => d2.mul (k 2 (d2.mul g4 g5)) i
+    else none)
+  let g0 := d2.add (d2.mul xi (d2.sub (d2.add (k 2 (d2.sqr g1)) (d2.mul g2 g5)) (k 3 (d2.mul g3 g4)))) d2.one
+  some (g0 ++ g4 ++ g3 ++ g2 ++ g1 ++ g5)
+
+/-- the six Granger–Scott relations (Lemmas/Fpx.lean `IsCyc12`) evaluated in the specification's arithmetic -/
+def relCyc12 (e : Env) (a : List Nat) : Bool :=
+  match e.tower 2 with
+  | none => false
+  | some d2 =>
+    let u := fp2Units a
+    let g0 := u.getD 0 []; let g4 := u.getD 1 []; let g3 := u.getD 2 []; let g2 := u.getD 3 []; let g1 := u.getD 4 []; let g5 := u.getD 5 []
+    let xi := e.xi
+    let m := d2.mul; let ad := d2.add; let sb := d2.sub; let sq := d2.sqr
+    let k := fun (n : Nat) (x : List Nat) => d2.mul (d2.ofNat n) x
+    d2.eq (m xi (ad (m g2 g5) (m g3 g4))) (sb (ad (sq g0) (m xi (sq g1))) g0) &&
+    d2.eq (ad (m g2 g4) (m xi (m g3 g5))) (ad (k 2 (m g0 g1)) g1) &&
+    d2.eq (ad (m g0 g2) (m xi (m g1 g3))) (ad (k 2 (m xi (m g4 g5))) g2) &&
+    d2.eq (ad (m g0 g3) (m g1 g2)) (sb (ad (sq g4) (m xi (sq g5))) g3) &&
+    d2.eq (ad (m g0 g4) (m xi (m g1 g5))) (sb (ad (sq g2) (m xi (sq g3))) g4) &&
+    d2.eq (ad (m g0 g5) (m g1 g4)) (ad (k 2 (m g2 g3)) g5)
+
 /-! ### the handler -/
 def handleOp (e : Env) (fname : String) (n : Nat) (op : String) (d : Desc) (l : Lvl) (al : String) (args : List String) (got : String) :
     Option Verdict := do
@@ -387,31 +421,32 @@ def handleOp (e : Env) (fname : String) (n : Nat) (op : String) (d : Desc) (l : 
   | "back_cyc", [a] =>
     let a ← el a
     if n != 12 then none else
-    -- judged by the defining property: same compressed coefficients, member of the cyclotomic subgroup. The formulas of
-    -- the model give the candidate; if it is not cyclotomic no cyclotomic element has these coefficients (theorem
-    -- back_cyc_unique) and the result is unspecified.
+    -- specification: the cyclotomic element with these four coefficients (unique when g2 ≠ 0 or g3 ≠ 0; Karabina's
+    -- formulas in the specification's arithmetic give the only candidate). No such element: unspecified.
     let m : List Nat := Flat.toFlat (fp12BackCyc (fp2Ops e.base e.qnr) e.nor2 (d.isOne a) (Flat.ofFlat a))
-    let degenerate := !d.isOne a && (fp2Units a).getD 3 [] == [0, 0] && (fp2Units a).getD 2 [] == [0, 0]
-    if degenerate then
-      -- g2 = g3 = 0 and the operand is not 1: only the identity has such a compressed form
-      if pck12.all (fun i => (fp2Units a).getD i [] == [0, 0]) then
-        some { model := "err", spec := [fmt d.one], tags := ["back_cyc-identity"] }
-      else some (unspecified "pre-false")
-    else if !c.isCyc m then some (unspecified "pre-false") else
-    match d.parse? got with
-    | some r => some { model := fmt m, spec := okOr (samePck12 a r && c.isCyc r) got (fmt m), tags := ["back_cyc"] }
-    | none => some { model := fmt m, spec := [fmt m], tags := ["back_cyc"] }
+    let idc := pck12.all (fun i => (fp2Units a).getD i [] == [0, 0])
+    if idc then
+      -- the compressed identity: recognised by the library only when c[0][0] still holds 1
+      some { model := if d.isOne a then fmt d.one else "err", spec := [fmt d.one], tags := ["back_cyc-identity"] }
+    else
+    match specBack12 e a with
+    | none => some (unspecified "pre-false")
+    | some cand =>
+      if !c.isCyc cand then some (unspecified "pre-false") else
+      some { model := fmt m, spec := [fmt cand],
+             tags := [if (fp2Units a).getD 3 [] == [0, 0] then "back_cyc-g2zero" else "back_cyc", if relCyc12 e cand then "rel-ok" else "REL-MISMATCH"] }
   | "back_cyc_sim", k :: rest =>
     let k ← k.toNat?
     let as ← parseEls c (rest.take k)
     if n != 12 then none else
-    -- the compressed form of the identity (all four coefficients zero) presented without the stale "1" in c[0][0]
-    let idc := fun (a : List Nat) => !d.isOne a && pck12.all (fun i => (fp2Units a).getD i [] == [0, 0])
-    let ms := as.map fun a => if idc a then d.one else
-      (Flat.toFlat (fp12BackCyc (fp2Ops e.base e.qnr) e.nor2 (d.isOne a) (Flat.ofFlat a)) : List Nat)
-    if !(ms.all c.isCyc) then some (unspecified "pre-false") else
-    let want := String.intercalate " " (ms.map fmt)
-    some { model := if as.any idc then "err" else want, spec := [want], tags := [if as.any idc then "back_cyc-identity" else "back_cyc_sim"] }
+    let idc := fun (a : List Nat) => pck12.all (fun i => (fp2Units a).getD i [] == [0, 0])
+    let cands := as.map fun a => if idc a then some d.one else specBack12 e a
+    if !(cands.all fun x => match x with | some v => c.isCyc v | none => false) then some (unspecified "pre-false") else
+    let want := String.intercalate " " (cands.map fun x => fmt (x.getD []))
+    let ms := as.map fun a => (Flat.toFlat (fp12BackCyc (fp2Ops e.base e.qnr) e.nor2 (d.isOne a) (Flat.ofFlat a)) : List Nat)
+    let idBad := as.any fun a => idc a && !d.isOne a
+    some { model := if idBad then "err" else String.intercalate " " (ms.map fmt), spec := [want],
+           tags := [if idBad then "back_cyc-identity" else if as.any (fun a => (fp2Units a).getD 3 [] == [0, 0]) then "back_cyc-g2zero" else "back_cyc_sim"] }
   | "pck", [a] =>
     let a ← el a
     if n == 12 then
@@ -433,10 +468,10 @@ def handleOp (e : Env) (fname : String) (n : Nat) (op : String) (d : Desc) (l : 
       else if pck12.all (fun i => (fp2Units a).getD i [] == [0, 0]) then
         some { model := got, spec := ["r=1 " ++ fmt d.one], tags := ["upk-identity"] }
       else
-        let m : List Nat := Flat.toFlat (fp12BackCyc (fp2Ops e.base e.qnr) e.nor2 false (Flat.ofFlat a))
-        let degenerate := (fp2Units a).getD 3 [] == [0, 0] && (fp2Units a).getD 2 [] == [0, 0]
-        if degenerate then some (unspecified "pre-false") else
-        some { model := got, spec := [if c.isCyc m then "r=1 " ++ fmt m else "r=0"], tags := ["upk-cyc"] }
+        match specBack12 e a with
+        | none => some (unspecified "pre-false")
+        | some cand => some { model := got, spec := [if c.isCyc cand then "r=1 " ++ fmt cand else "r=0"],
+                              tags := [if (fp2Units a).getD 3 [] == [0, 0] then "upk-g2zero" else "upk-cyc"] }
     else if n == 2 then
       let R := 2 ^ (64 * ((e.bytes + 7) / 8))
       let raw1 := a.getD 1 0 * R % e.p
